@@ -287,13 +287,13 @@ func E(name, typ string, kv ...any) Ent {
 	return e
 }
 
-// deepChoices: the 20000-deep tree costs seconds per input; the quick tier meets it once in the
-// suspects stream only.
+// deepChoices: trees of 10000 and more levels cost seconds per input (and the bolt store is cubic in
+// the depth); the quick tier meets them in the suspects stream only.
 func (g *Gen) deepChoices() int {
 	if os.Getenv("VERIF_TIER") == "thorough" {
 		return 7
 	}
-	return 6
+	return 2
 }
 
 func (g *Gen) base() *Base { return g.Bases[g.R.Pick(8, 1, 1)] }
@@ -817,6 +817,12 @@ func (g *Gen) Fixed() (out, late []Input) {
 	if i := entIdx(ents, "d/a.txt"); i >= 0 && i+1 < len(ents) {
 		ents[i+1]["chunkSize"] = -3
 	}
+	// d5da172: Build with a prioritized path that reaches a hardlink cycle
+	cyc := append(baseTar(), tarEnt{name: "l1", typ: tar.TypeLink, link: "l2"}, tarEnt{name: "l2", typ: tar.TypeLink, link: "l1"})
+	self := append(baseTar(), tarEnt{name: "s", typ: tar.TypeLink, link: "s"})
+	out = append(out,
+		Input{Class: "fixed:d5da172:build-hardlink-cycle-prioritized", Kind: "tar", MustErr: true, Data: MakeTar(cyc), Prio: []string{"l1"}},
+		Input{Class: "fixed:d5da172:build-hardlink-self-prioritized", Kind: "tar", MustErr: true, Data: MakeTar(self), Prio: []string{"s"}})
 	// 6332cf7: chunk size that does not tile the merge buffer (passthrough merge sizes 6 and 7
 	// against 4-byte chunks, see ExerciseReader)
 	out = append(out, g.blobInput(gz, "fixed:6332cf7:passthrough-straddle", gz.TOCJSON))
